@@ -169,7 +169,10 @@ func ApplyFresh(patch []byte, oldDir, outDir string) error {
 	if err != nil {
 		return fmt.Errorf("patcher.New: %w", err)
 	}
-	targetPool := fspool.New(p.GetTargetContainer(), oldDir)
+	var targetPool lake.Pool = fspool.New(p.GetTargetContainer(), oldDir)
+	if TargetPoolWrap != nil {
+		targetPool = TargetPoolWrap(targetPool)
+	}
 	b, err := bowl.NewFreshBowl(bowl.FreshBowlParams{
 		SourceContainer: p.GetSourceContainer(),
 		TargetContainer: p.GetTargetContainer(),
@@ -194,7 +197,10 @@ func OverlayApply(patch []byte, dir, stage string, beforeCommit func() error) er
 	if err != nil {
 		return fmt.Errorf("patcher.New: %w", err)
 	}
-	targetPool := fspool.New(p.GetTargetContainer(), dir)
+	var targetPool lake.Pool = fspool.New(p.GetTargetContainer(), dir)
+	if TargetPoolWrap != nil {
+		targetPool = TargetPoolWrap(targetPool)
+	}
 	b, err := bowl.NewOverlayBowl(bowl.OverlayBowlParams{
 		SourceContainer: p.GetSourceContainer(),
 		TargetContainer: p.GetTargetContainer(),
@@ -263,11 +269,17 @@ func OptimizeWith(patch []byte, oldDir, newDir string, op OptParams, out io.Writ
 		if shared.Target == nil {
 			shared.Target = fspool.New(rc.GetTargetContainer(), oldDir)
 			shared.Source = fspool.New(rc.GetSourceContainer(), newDir)
+			if TargetPoolWrap != nil {
+				shared.Target, shared.Source = TargetPoolWrap(shared.Target), TargetPoolWrap(shared.Source)
+			}
 		}
 		tp, sp = shared.Target, shared.Source
 	} else {
 		tp = fspool.New(rc.GetTargetContainer(), oldDir)
 		sp = fspool.New(rc.GetSourceContainer(), newDir)
+		if TargetPoolWrap != nil {
+			tp, sp = TargetPoolWrap(tp), TargetPoolWrap(sp)
+		}
 		defer tp.Close()
 		defer sp.Close()
 	}
